@@ -22,7 +22,9 @@
    * (since fix 6178f2f the double quotes of a backtick string are escaped before decoding, so the text can no
      longer leave the Python literal early; `PyOpaque` is kept for that impossible case and treated as a rejection);
    * this is the tokenizer of /repo *after the fix commits 3ea2eae (bad escape), bf12f2c (case labels), cf555df
-     (backtick first/last line must be all whitespace) and 6178f2f (double quotes in backtick strings)*: a rejected string literal is the diagnostic `DBadString` (pinned tree: a plain SyntaxError /
+     (backtick first/last line must be all whitespace), 6178f2f (double quotes in backtick strings) and 9285cea
+     (`is_slash` cleared at a newline, at the start of a `//` comment and after `__parse_none` consumed the character;
+     d670aea `Token._macro_end` / `Token.end` only concerns header-macro expansions, outside this model)*: a rejected string literal is the diagnostic `DBadString` (pinned tree: a plain SyntaxError /
      ValueError escaped; `parse_gen false` keeps that behaviour, `parse_gen true` = `parse` is the repaired one),
      and `__should_terminate_line` / `__is_shorten_if` look past a `case n:` / `default:` label.
    No proofs in this file. *)
@@ -572,11 +574,11 @@ Definition parse_paren (c : char) (es : bool) (st : tk) : result (tk * bool) :=
 Definition step (es : bool) (c : char) (st : tk) : result tk :=
   let st := set_pos st (s_line st) (s_col st + 1) in
   if ceqb c c_semi && state_none st && negb es then diag_here DUnexpectedSemicolon st
-  else if ceqb c c_nl then parse_newline c st
+  else if ceqb c c_nl then do st' <- parse_newline c st; Ok (set_is_slash st' false)      (* fix 9285cea *)
   else if ceqb c c_slash && s_is_slash st && negb (state_is st PAREN) && negb (state_is st STRING) then
     let st1 := set_tokstr st (removelast (s_tokstr st)) in
     do st2 <- (match s_tokstr st1 with [] => Ok st1 | _ => append_token st1 end);
-    Ok (set_state st2 (Some COMMENT))
+    Ok (set_is_slash (set_state st2 (Some COMMENT)) false)                                  (* fix 9285cea *)
   else
     do r1 <- (if state_is st KEYWORD || state_is st OPERATOR then parse_kw c es st else Ok (st, false));
     let '(st1, cont1) := r1 in
@@ -588,7 +590,9 @@ Definition step (es : bool) (c : char) (st : tk) : result tk :=
          else if state_is st1 PAREN then parse_paren c es st1
          else Ok (st1, false));
       let '(st2, cont2) := r2 in
-      if cont2 then Ok st2 else Ok (set_is_slash st2 (ceqb c c_slash)).
+      (* fix 9285cea: `if self.__parse_none(char): self.is_slash = False; continue` *)
+      if cont2 then Ok (if state_none st1 then set_is_slash st2 false else st2)
+      else Ok (set_is_slash st2 (ceqb c c_slash)).
 
 Fixpoint parse_chars (es : bool) (s : str) (st : tk) : result tk :=
   match s with
